@@ -75,16 +75,22 @@ def r1_generation(ctx):
         def sample(interp, env, f, args):
             k = interp.mstate.get("wlen", 1)
             return 0 if pick == "first" else k - 1
-        table = {"mahf::state::registry::StateRegistry::borrow": Sym("pm", boxlike=True), "mahf::state::State::random_mut": Sym("rng"),
+        # the pheromone matrix, the population stack and the generator are cells of the typed store (any accessor reaches them)
+        import statemodel
+        cells1 = {PM: ("whole", Sym("pm", boxlike=True)), statemodel.POPULATIONS: ("whole", Sym("populations")), statemodel.RANDOM: ("whole", Sym("rng"))}
+        store1 = statemodel.Store(F, levels=1, auto=statemodel.by_prefix(F, cells1))
+        table = {
                  "mahf::problems::VectorProblem::dimension": dim, "mahf::problems::TravellingSalespersonProblem::distance": dist,
                  "rand::distributions::weighted_index::WeightedIndex::new": wnew, "rand::distributions::distribution::Distribution::sample": sample,
-                 "mahf::state::State::populations_mut": Sym("populations"), "mahf::state::common::Populations::current_mut": Ref(home, [], frame="root")}
+                 "mahf::state::common::Populations::current_mut": Ref(home, [], frame="root")}
         table.update(matrix_oracles(dim))
-        it = install(Interp(fn.body, chain(mk_oracle(table), coll_oracle, std_oracle), [me, Sym("problem"), Sym("state")], facts=F, inline=c07.INLINE, max_visits=40, max_paths=100))
+        it = install(Interp(fn.body, chain(mk_oracle(table), store1, coll_oracle, std_oracle), [me, Sym("problem"), Sym("state")], facts=F,
+                            inline=lambda k_: c07.INLINE(k_) or (statemodel.inline(k_) and PM not in k_), max_visits=40, max_paths=100))
         heap = {"row%d" % i: tuple(val if i != j else 0.0 for j in range(dim)) for i in range(dim)}
         it.extra_env = {home: Vec("old")}
         heap["old"] = ()
         it.init_state = {"heap": heap, "next_vec": 0}
+        store1.install(it)
         n += 1
         for p in it.run():
             ctxs = (dim, ants, pher, dist, pick)
@@ -152,12 +158,12 @@ def r2_updates(ctx):
                 vals = {fields["evaporation"]: rho, fields["max_pheromones"]: hi, fields["min_pheromones"]: lo}
             me = Sym("self", vals)
             rows = [[base * (1 + i + j) if i != j else 0.0 for j in range(dim)] for i in range(dim)]
-            table = {"mahf::state::State::populations": Sym("populations"), "mahf::state::common::Populations::current": Vec("cur", borrowed=True),
-                     "mahf::state::registry::StateRegistry::borrow_mut": Sym("pm", {"inner": None}, boxlike=True)}
+            import statemodel
+            table = {"mahf::state::common::Populations::current": Vec("cur", borrowed=True)}
             table.update(matrix_oracles(dim))
             inner_idx = F.field_index(PM, "inner")
             pmsym = Sym("pm", {inner_idx: Vec("flat", borrowed=True)}, boxlike=True)
-            table["mahf::state::registry::StateRegistry::borrow_mut"] = pmsym
+            store2 = statemodel.Store(F, levels=1, auto=statemodel.by_prefix(F, {PM: ("whole", pmsym), statemodel.POPULATIONS: ("whole", Sym("populations")), statemodel.RANDOM: ("whole", Sym("rng"))}))
             heap = {"row%d" % i: tuple(rows[i]) for i in range(dim)}
             heap["flat"] = ()
             inds = []
@@ -168,8 +174,10 @@ def r2_updates(ctx):
             # direct iteration over pm.inner (clamping loops) is answered over all rows
             def iter_inner(interp, env, f, args):
                 return TOP
-            it = install(Interp(fn.body, chain(mk_oracle(table), FlatView(dim), coll_oracle, std_oracle), [me, Sym("problem"), Sym("state")], facts=F, inline=c07.INLINE, max_visits=40, max_paths=50))
+            it = install(Interp(fn.body, chain(mk_oracle(table), store2, FlatView(dim), coll_oracle, std_oracle), [me, Sym("problem"), Sym("state")], facts=F,
+                                inline=lambda k_: c07.INLINE(k_) or (statemodel.inline(k_) and PM not in k_), max_visits=40, max_paths=50))
             it.init_state = {"heap": heap, "next_vec": 0}
+            store2.install(it)
             n += 1
             want = expected_update(kind, rows, tours, objs, rho, 2.0, lo, hi)
             for p in it.run():
